@@ -213,57 +213,90 @@ pub(crate) mod b {
     }
 
     /// A3 (C10): the spans of a cell buffer are exactly the connected components of its cells under
-    /// 8-neighbour adjacency: a partition (no cell lost or duplicated), nothing joined across a gap
+    /// 8-neighbour adjacency: a partition (no cell lost or duplicated), nothing joined across a gap -
+    /// whatever the characters are (a double-width character is one cell) and however many groups are open
+    fn check_components(cells: &[(Cell, char)]) -> bool {
+        let mut cb = CellBuffer::new();
+        for (c, ch) in cells {
+            cb.insert(*c, *ch);
+        }
+        // reference: flood fill
+        let mut comp: BTreeMap<Cell, usize> = BTreeMap::new();
+        let mut ncomp = 0;
+        for (c, _) in cells {
+            if comp.contains_key(c) {
+                continue;
+            }
+            let mut stack = vec![*c];
+            comp.insert(*c, ncomp);
+            while let Some(p) = stack.pop() {
+                for (q, _) in cells {
+                    if !comp.contains_key(q) && (q.x - p.x).abs() <= 1 && (q.y - p.y).abs() <= 1 {
+                        comp.insert(*q, ncomp);
+                        stack.push(*q);
+                    }
+                }
+            }
+            ncomp += 1;
+        }
+        let spans: Vec<Span> = Vec::<Span>::from(&cb);
+        let mut seen: BTreeMap<Cell, usize> = BTreeMap::new();
+        let mut ok = spans.len() == ncomp;
+        for (si, sp) in spans.iter().enumerate() {
+            for (c, ch) in sp.iter() {
+                ok = ok && cells.contains(&(*c, *ch)) && seen.insert(*c, si).is_none();
+            }
+            // all cells of a span belong to one component
+            let ids: std::collections::BTreeSet<usize> = sp.iter().filter_map(|(c, _)| comp.get(c).copied()).collect();
+            ok = ok && ids.len() == 1;
+        }
+        ok = ok && seen.len() == cells.len();
+        if !ok {
+            println!("BOUNDED-WITNESS occupied cells {:?}: {} spans {:?}, {} components", cells, spans.len(), spans, ncomp);
+        }
+        ok
+    }
+
     #[test]
     fn bounded_spans_are_components() {
         let (w, h) = (4usize, 3usize);
         let mut n = 0u64;
+        // every subset of a 4 x 3 grid
         for code in 0..(1u32 << (w * h)) {
-            let mut cb = CellBuffer::new();
-            let mut cells = vec![];
-            for i in 0..(w * h) {
-                if code & (1 << i) != 0 {
-                    let c = Cell::new((i % w) as i32, (i / w) as i32);
-                    cb.insert(c, 'x');
-                    cells.push(c);
-                }
-            }
-            // reference: flood fill
-            let mut comp: BTreeMap<Cell, usize> = BTreeMap::new();
-            let mut ncomp = 0;
-            for c in &cells {
-                if comp.contains_key(c) {
-                    continue;
-                }
-                let mut stack = vec![*c];
-                comp.insert(*c, ncomp);
-                while let Some(p) = stack.pop() {
-                    for q in &cells {
-                        if !comp.contains_key(q) && (q.x - p.x).abs() <= 1 && (q.y - p.y).abs() <= 1 {
-                            comp.insert(*q, ncomp);
-                            stack.push(*q);
+            let cells: Vec<(Cell, char)> = (0..(w * h)).filter(|i| code & (1 << i) != 0).map(|i| (Cell::new((i % w) as i32, (i / w) as i32), 'x')).collect();
+            assert!(check_components(&cells), "spans = connected components");
+            n += 1;
+        }
+        // many groups open at once: k separate bars (vertical, or leaning) of `rows` cells each, one column apart
+        for k in 1..=14i32 {
+            for rows in 2..=4i32 {
+                for lean in [0i32, 1] {
+                    let mut cells = vec![];
+                    for b in 0..k {
+                        for r in 0..rows {
+                            cells.push((Cell::new(b * (2 + lean * rows) + lean * r, r), '|'));
                         }
                     }
+                    cells.sort();
+                    assert!(check_components(&cells), "spans = connected components");
+                    n += 1;
                 }
-                ncomp += 1;
             }
-            let spans: Vec<Span> = Vec::<Span>::from(&cb);
-            let mut seen: BTreeMap<Cell, usize> = BTreeMap::new();
-            let mut ok = spans.len() == ncomp;
-            for (si, sp) in spans.iter().enumerate() {
-                for (c, ch) in sp.iter() {
-                    ok = ok && *ch == 'x' && seen.insert(*c, si).is_none();
+        }
+        // double-width characters are cells like any other: the column after them is blank, a cell beyond it is not adjacent
+        for gap in 1..=3i32 {
+            for wide_left in [false, true] {
+                for rows in 1..=2i32 {
+                    let mut cells = vec![];
+                    for r in 0..rows {
+                        cells.push((Cell::new(0, r), if wide_left { '一' } else { 'a' }));
+                        cells.push((Cell::new(gap, r), if wide_left { 'a' } else { '一' }));
+                    }
+                    cells.sort();
+                    assert!(check_components(&cells), "spans = connected components");
+                    n += 1;
                 }
-                // all cells of a span belong to one component
-                let ids: std::collections::BTreeSet<usize> = sp.iter().filter_map(|(c, _)| comp.get(c).copied()).collect();
-                ok = ok && ids.len() == 1;
             }
-            ok = ok && seen.len() == cells.len();
-            if !ok {
-                println!("BOUNDED-WITNESS occupied cells {:?}: {} spans {:?}, {} components", cells, spans.len(), spans, ncomp);
-                panic!("spans = connected components");
-            }
-            n += 1;
         }
         println!("BOUNDED-CASES {}", n);
     }
